@@ -1,138 +1,115 @@
-(* C08 — proofs, part 4: literals. *)
+(* C08 — proofs, part 4: literals (printer 7ab5ea6, lexer gate 9eaf9b5). *)
 From Coq Require Import NArith ZArith String DecimalString DecimalZ DecimalPos Decimal Lia.
 From Coq Require Import List Arith Bool.
 Import ListNotations.
 From SV Require Import C08.Lit.
 
 (* ---- strings *)
-Lemma scan_quote_free : forall s t odd acc, has_quote s = false -> has_nl s = false ->
-  scan (s ++ t) odd acc = scan t (run_bs odd s) (rev s ++ acc).
-Proof.
-  induction s as [|c s IH]; intros t odd acc Hq Hn; [reflexivity|].
-  cbn [has_quote has_nl existsb] in Hq, Hn. apply orb_false_elim in Hq. apply orb_false_elim in Hn.
-  destruct Hq as [Hc Hq], Hn as [Hc' Hn]. cbn [app scan]. rewrite Hc, Hc'.
-  rewrite (IH t _ _ Hq Hn). cbn [run_bs fold_left rev]. rewrite <- app_assoc. reflexivity.
-Qed.
-
 Lemma unescape_cons2 c d l : unescape (c :: d :: l) =
   if ((c =? BSLASH) && (d =? QUOTE))%N then QUOTE :: unescape l else c :: unescape (d :: l).
 Proof. reflexivity. Qed.
 
-Lemma unescape_quote_free_n : forall n s, length s <= n -> has_quote s = false -> unescape s = s.
-Proof.
-  induction n as [|n IH]; intros [|c [|d s]] Hl Hq; try reflexivity; cbn [length] in Hl; try lia.
-  cbn [has_quote existsb] in Hq. apply orb_false_elim in Hq. destruct Hq as [Hc Hq].
-  pose proof Hq as Hq'. apply orb_false_elim in Hq. destruct Hq as [Hd Hq].
-  rewrite unescape_cons2. rewrite Hd, andb_false_r. f_equal. apply IH; [cbn [length]; lia|exact Hq'].
-Qed.
-Lemma unescape_quote_free : forall s, has_quote s = false -> unescape s = s.
-Proof. intros s. apply (unescape_quote_free_n (length s)). lia. Qed.
+Lemma unescape_cons_other c l : (c =? BSLASH)%N = false -> unescape (c :: l) = c :: unescape l.
+Proof. intros H. destruct l as [|d l]; [reflexivity|]. rewrite unescape_cons2, H. reflexivity. Qed.
 
-(* a string value without quotes (and, as every value the parser produces, without newline and
-   with an even run of trailing backslashes) is read back unchanged, whatever follows *)
-Theorem str_roundtrip : forall s rest, has_quote s = false -> has_nl s = false -> run_bs false s = false ->
-  reparse_str (print_str s) rest = Some (s, rest).
+Lemma unescape_bs_noquote d l : (d =? QUOTE)%N = false -> unescape (BSLASH :: d :: l) = BSLASH :: unescape (d :: l).
+Proof. intros H. rewrite unescape_cons2, H, andb_false_r. reflexivity. Qed.
+
+(* a literal interior the lexer walks over is read up to the closing quote *)
+Lemma walk_scan : forall r odd acc rest, walk r odd = Some false ->
+  scan (r ++ QUOTE :: rest) odd acc = Some (rev acc ++ r, rest).
 Proof.
-  intros s rest Hq Hn Hb. unfold reparse_str, print_str, lex_str. cbn [app]. rewrite N.eqb_refl.
-  rewrite <- app_assoc. rewrite (scan_quote_free s _ _ _ Hq Hn). rewrite Hb. cbn [app scan].
-  rewrite N.eqb_refl. rewrite app_nil_r, rev_involutive. rewrite (unescape_quote_free s Hq). reflexivity.
+  induction r as [|c r IH]; intros odd acc rest H.
+  - cbn in H. inversion H; subst. cbn. rewrite app_nil_r. reflexivity.
+  - cbn [walk] in H. cbn [app scan]. destruct (c =? QUOTE)%N.
+    + destruct odd; [|discriminate]. rewrite (IH _ _ _ H). cbn [rev]. rewrite <- app_assoc. reflexivity.
+    + destruct (c =? NL)%N; [discriminate|]. rewrite (IH _ _ _ H). cbn [rev]. rewrite <- app_assoc. reflexivity.
 Qed.
 
-(* and the printed text is the literal's original text: print (parse text) = text *)
-Theorem str_print_parse_text : forall r, has_quote r = false -> print_str (unescape r) = QUOTE :: r ++ [QUOTE].
-Proof. intros r H. unfold print_str. rewrite (unescape_quote_free r H). reflexivity. Qed.
-
-(* scanning returns a split of its input *)
-Lemma scan_split : forall l odd acc r rest, scan l odd acc = Some (r, rest) -> rev acc ++ l = r ++ QUOTE :: rest.
+(* and whatever the lexer accepts has such an interior *)
+Lemma scan_walk : forall l odd acc r rest, scan l odd acc = Some (r, rest) ->
+  exists p, r = rev acc ++ p /\ l = p ++ QUOTE :: rest /\ walk p odd = Some false.
 Proof.
   induction l as [|c l IH]; intros odd acc r rest H; [discriminate|]. cbn [scan] in H.
   destruct (N.eqb_spec c QUOTE) as [->|Hc].
   - destruct odd.
-    + apply IH in H. cbn [rev] in H. rewrite <- app_assoc in H. exact H.
-    + inversion H; subst. reflexivity.
-  - destruct (c =? NL)%N; [discriminate|]. apply IH in H. cbn [rev] in H. rewrite <- app_assoc in H. exact H.
+    + destruct (IH _ _ _ _ H) as (p & -> & -> & Hw). exists (QUOTE :: p). cbn [rev walk app].
+      rewrite <- app_assoc. rewrite N.eqb_refl. auto.
+    + inversion H; subst. exists []. cbn. rewrite app_nil_r. auto.
+  - destruct (c =? NL)%N eqn:En; [discriminate|].
+    destruct (IH _ _ _ _ H) as (p & -> & -> & Hw). exists (c :: p). cbn [rev walk app].
+    rewrite <- app_assoc. apply N.eqb_neq in Hc. rewrite Hc, En. auto.
 Qed.
 
-Lemma unescape_len_n : forall n l, length l <= n -> length (unescape l) <= length l.
+(* re-escaping undoes unescape_quotes on every interior the lexer accepts *)
+Lemma escape_unescape_n : forall n l, length l <= n ->
+  (forall b, walk l false = Some b -> escape (unescape l) = l) /\
+  (forall b, walk l true = Some b -> escape (unescape (BSLASH :: l)) = BSLASH :: l).
 Proof.
-  induction n as [|n IH]; intros [|c [|d l]] Hl; try (cbn; lia); cbn [length] in Hl; try lia.
-  rewrite unescape_cons2.
-  destruct ((c =? BSLASH) && (d =? QUOTE))%N; cbn [length].
-  - specialize (IH l ltac:(lia)). lia.
-  - specialize (IH (d :: l) ltac:(cbn [length]; lia)). cbn [length] in IH. lia.
+  induction n as [|n IH]; intros l Hl.
+  - destruct l; [|cbn in Hl; lia]. split; intros; reflexivity.
+  - destruct l as [|c l']; [split; intros; reflexivity|]. cbn [length] in Hl.
+    destruct (IH l' ltac:(lia)) as [F' G'].
+    assert (F : forall b, walk (c :: l') false = Some b -> escape (unescape (c :: l')) = c :: l').
+    { intros b H. cbn [walk] in H. destruct (c =? QUOTE)%N eqn:Eq; [discriminate|].
+      destruct (c =? NL)%N; [discriminate|]. destruct (N.eqb_spec c BSLASH) as [->|Hb].
+      - exact (G' b H).
+      - apply N.eqb_neq in Hb. rewrite (unescape_cons_other c l' Hb). cbn [escape]. rewrite Eq.
+        rewrite (F' b H). reflexivity. }
+    split; [exact F|]. intros b H. cbn [walk] in H.
+    destruct (N.eqb_spec c QUOTE) as [->|Hq].
+    + rewrite unescape_cons2, !N.eqb_refl. cbn [andb escape]. rewrite N.eqb_refl. rewrite (F' b H). reflexivity.
+    + apply N.eqb_neq in Hq. destruct (c =? NL)%N eqn:En; [discriminate|].
+      rewrite (unescape_bs_noquote c l' Hq). cbn [escape]. change (BSLASH =? QUOTE)%N with false. cbn iota.
+      f_equal. destruct (N.eqb_spec c BSLASH) as [->|Hb].
+      * (* second backslash of a pair: what follows is walked with even parity *)
+        cbn [negb] in H. destruct l' as [|d l''].
+        -- reflexivity.
+        -- assert (Hd : (d =? QUOTE)%N = false).
+           { cbn [walk] in H. destruct (d =? QUOTE)%N; [discriminate|reflexivity]. }
+           rewrite (unescape_bs_noquote d l'' Hd). cbn [escape]. change (BSLASH =? QUOTE)%N with false. cbn iota.
+           f_equal. exact (F' b H).
+      * apply N.eqb_neq in Hb. apply (F b). cbn [walk]. rewrite Hq, En, Hb. exact H.
 Qed.
-Lemma unescape_len : forall l, length (unescape l) <= length l.
-Proof. intros l. apply (unescape_len_n (length l)). lia. Qed.
 
-(* an escaped quote makes unescape strictly shorter *)
-Lemma unescape_shrinks_n : forall n a q, length a <= n ->
-  length (unescape (a ++ BSLASH :: QUOTE :: q)) < length (a ++ BSLASH :: QUOTE :: q).
+Lemma escape_unescape r : valid_raw r -> escape (unescape r) = r.
+Proof. intros H. destruct (escape_unescape_n (length r) r (le_n _)) as [F _]. exact (F false H). Qed.
+
+(* the printed literal is the literal that was read: print (parse text) = text *)
+Theorem str_print_parse_text : forall r, valid_raw r -> print_str (unescape r) = QUOTE :: r ++ [QUOTE].
+Proof. intros r H. unfold print_str. rewrite (escape_unescape r H). reflexivity. Qed.
+
+(* EVERY value a string literal can have is read back unchanged, whatever follows *)
+Theorem str_roundtrip : forall r rest, valid_raw r ->
+  reparse_str (print_str (unescape r)) rest = Some (unescape r, rest).
 Proof.
-  induction n as [|n IH]; intros [|c [|d a]] q Hl; cbn [length] in Hl; try lia.
-  - cbn [app]. rewrite unescape_cons2. rewrite !N.eqb_refl. cbn [andb length]. pose proof (unescape_len q). lia.
-  - cbn [app]. rewrite unescape_cons2. rewrite !N.eqb_refl. cbn [andb length]. pose proof (unescape_len q). lia.
-  - cbn [app]. rewrite unescape_cons2.
-    change (BSLASH =? QUOTE)%N with false. rewrite andb_false_r. cbn [length].
-    specialize (IH [] q ltac:(cbn; lia)). cbn [app] in IH. cbn [length] in IH. lia.
-  - cbn [app]. rewrite unescape_cons2.
-    destruct ((c =? BSLASH) && (d =? QUOTE))%N; cbn [length].
-    + specialize (IH a q ltac:(lia)). lia.
-    + specialize (IH (d :: a) q ltac:(cbn [length]; lia)). cbn [app length] in IH. lia.
+  intros r rest H. unfold reparse_str. rewrite (str_print_parse_text r H). unfold lex_str. cbn [app].
+  rewrite N.eqb_refl. rewrite <- app_assoc. cbn [app]. rewrite (walk_scan r false [] rest H). reflexivity.
 Qed.
-Lemma unescape_shrinks : forall a q, length (unescape (a ++ BSLASH :: QUOTE :: q)) < length (a ++ BSLASH :: QUOTE :: q).
-Proof. intros a q. apply (unescape_shrinks_n (length a)). lia. Qed.
 
-(* if the scanner walks over a quote, that quote is preceded by a backslash *)
-Lemma scan_over_quote : forall p q odd acc r rest, has_quote p = false ->
-  scan (p ++ QUOTE :: q) odd acc = Some (r, rest) -> length rest < length q ->
-  (odd = true /\ p = []) \/ exists p', p = p' ++ [BSLASH].
+(* stated on the lexer itself: whatever lex_str accepts, the value the parser makes of it is printed
+   as text that lexes and parses back to the same value *)
+Theorem str_lexed_roundtrip : forall l r rest rest',
+  lex_str (QUOTE :: l) = Some (r, rest) ->
+  valid_raw r /\ reparse_str (print_str (unescape r)) rest' = Some (unescape r, rest').
 Proof.
-  induction p as [|c p IH]; intros q odd acc r rest Hq H Hlen.
-  - cbn [app scan] in H. rewrite N.eqb_refl in H. destruct odd; [left; auto|].
-    inversion H; subst. lia.
-  - cbn [has_quote existsb] in Hq. apply orb_false_elim in Hq. destruct Hq as [Hc Hq].
-    cbn [app scan] in H. rewrite Hc in H. destruct (c =? NL)%N; [discriminate|].
-    destruct (IH _ _ _ _ _ Hq H Hlen) as [[Ho ->]|[p' ->]].
-    + right. exists []. destruct (N.eqb_spec c BSLASH) as [->|]; [reflexivity|discriminate].
-    + right. exists (c :: p'). reflexivity.
+  intros l r rest rest' H. unfold lex_str in H. rewrite N.eqb_refl in H.
+  destruct (scan_walk _ _ _ _ _ H) as (p & -> & _ & Hw). cbn [rev app].
+  split; [exact Hw|apply str_roundtrip; exact Hw].
 Qed.
 
-(* K4, the converse: a value with a quote is never read back *)
-Theorem str_quote_not_roundtrip : forall s rest, has_quote s = true ->
-  reparse_str (print_str s) rest <> Some (s, rest).
+(* values without a quote are printed as they are *)
+Lemma escape_quote_free : forall s, has_quote s = false -> escape s = s.
 Proof.
-  intros s rest Hq Heq. unfold reparse_str, print_str, lex_str in Heq. cbn [app] in Heq.
-  rewrite N.eqb_refl in Heq. rewrite <- app_assoc in Heq. cbn [app] in Heq.
-  destruct (scan (s ++ QUOTE :: rest) false []) as [[r rest']|] eqn:E; [|discriminate].
-  inversion Heq; subst rest'. clear Heq. rename H0 into Hu.
-  pose proof (scan_split _ _ _ _ _ E) as Hs. cbn [rev app] in Hs.
-  assert (Hr : r = s).
-  { assert (Hl : length (s ++ QUOTE :: rest) = length (r ++ QUOTE :: rest)) by (rewrite Hs; reflexivity).
-    rewrite !app_length in Hl. cbn [length] in Hl.
-    assert (length s = length r) by lia.
-    clear -Hs H. revert r Hs H. induction s as [|c s IH]; intros [|d r] Hs Hlen; cbn in *; try lia; auto.
-    inversion Hs; subst. f_equal. apply IH; auto. }
-  subst r.
-  (* first quote of s *)
-  assert (Hsplit : exists p q, s = p ++ QUOTE :: q /\ has_quote p = false).
-  { clear -Hq. induction s as [|c s IH]; [discriminate|]. cbn [has_quote existsb] in Hq.
-    destruct (N.eqb_spec c QUOTE) as [->|Hc].
-    - exists [], s. split; reflexivity.
-    - cbn [orb] in Hq. destruct (IH Hq) as (p & q & -> & Hp). exists (c :: p), q. split; [reflexivity|].
-      cbn [has_quote existsb]. apply N.eqb_neq in Hc. rewrite Hc. exact Hp. }
-  destruct Hsplit as (p & q & -> & Hp).
-  rewrite <- app_assoc in E. cbn [app] in E.
-  destruct (scan_over_quote p (q ++ QUOTE :: rest) false [] _ _ Hp E) as [[Ho _]|[p' ->]].
-  { rewrite app_length. cbn [length]. lia. }
-  { discriminate. }
-  rewrite <- app_assoc in Hu. cbn [app] in Hu.
-  pose proof (unescape_shrinks p' q) as Hlt. rewrite Hu in Hlt. lia.
+  induction s as [|c s IH]; intros H; [reflexivity|]. cbn [has_quote existsb] in H.
+  apply orb_false_elim in H. destruct H as [Hc H]. cbn [escape]. rewrite Hc, (IH H). reflexivity.
 Qed.
 
-Lemma K4_witness : has_quote [97; 34; 98]%N = true /\
-  reparse_str (print_str [97; 34; 98]%N) [] = Some ([97]%N, [98; 34]%N) /\
-  lex_str (print_str [97; 34; 98]%N) = Some ([97]%N, [98; 34]%N) /\
-  reparse_str (print_str_fixed [97; 34; 98]%N) [] = Some ([97; 34; 98]%N, []).
+(* regression example for 7ab5ea6: the value a, quote, b *)
+Lemma K4_repaired :
+  reparse_str (print_str [97; 34; 98]%N) [] = Some ([97; 34; 98]%N, []) /\
+  print_str [97; 34; 98]%N = [34; 97; 92; 34; 98; 34]%N /\
+  reparse_str (print_str_pinned [97; 34; 98]%N) [] = Some ([97]%N, [98; 34]%N).
 Proof. repeat split; vm_compute; reflexivity. Qed.
 
 (* ---- ints *)
@@ -159,38 +136,23 @@ Qed.
 Theorem int_roundtrip_min : lit_value (gate PMinus (- MIN)) = Some MIN /\ print_int MIN = "-2147483648"%string.
 Proof. split; vm_compute; reflexivity. Qed.
 
-(* K5: the gate lets 2147483648 through after any token but `-`, it is read as 0 and printed as "0" *)
-Theorem K5_witness : gate POther 2147483648 = ITok 2147483648 /\ lit_value (gate POther 2147483648) = Some 0 /\
-  print_int 0 = "0"%string /\ print_int 2147483648 = "2147483648"%string /\ known_C08_int POther 2147483648 = true.
-Proof. repeat split; vm_compute; reflexivity. Qed.
-
-(* outside K5 an accepted literal keeps its value: the printed text is the text that was read *)
-Theorem int_text_preserved : forall p v t, 0 <= v -> known_C08_int p v = false -> gate p v = t ->
+(* an accepted literal keeps its value, with no exception: the printed text is the text that was read *)
+Theorem int_text_preserved : forall p v t, 0 <= v -> gate p v = t ->
   match t with
   | IErr => True
-  | ITok v' => v' = v /\ lit_value t = Some v
-  | IMerged => v = - MIN /\ lit_value t = Some MIN
+  | ITok v' => v' = v /\ v <= MAX /\ lit_value t = Some v
+  | IMerged => v = - MIN /\ p = PMinus /\ lit_value t = Some MIN
   end.
 Proof.
-  intros p v t H0 Hk <-. unfold gate, known_C08_int, MAX, MIN in *.
+  intros p v t H0 <-. unfold gate, MAX, MIN in *.
   destruct (Z.gtb_spec v (2147483647 + 1)); [exact I|].
   destruct (Z.eqb_spec v (2147483647 + 1)).
-  - destruct p; cbn in *; try exact I; try discriminate. split; [lia|reflexivity].
-  - cbn [lit_value]. split; [reflexivity|]. unfold MIN, MAX.
+  - destruct p; cbn; try exact I. repeat split; lia.
+  - cbn [lit_value]. split; [reflexivity|]. split; [lia|]. unfold MIN, MAX.
     destruct (Z.leb_spec (-2147483648) v); [|lia]. destruct (Z.leb_spec v 2147483647); [|lia]. reflexivity.
 Qed.
 
-(* the repaired gate has no K5 *)
-Theorem gate_fixed_sound : forall p v, 0 <= v ->
-  match gate_fixed p v with
-  | IErr => True
-  | ITok v' => v' = v /\ v <= MAX
-  | IMerged => v = - MIN /\ p = PMinus
-  end.
-Proof.
-  intros p v H0. unfold gate_fixed, MAX, MIN.
-  destruct (Z.gtb_spec v (2147483647 + 1)); [exact I|].
-  destruct (Z.eqb_spec v (2147483647 + 1)).
-  - destruct p; try exact I. split; [lia|reflexivity].
-  - split; [reflexivity|lia].
-Qed.
+(* regression example for 9eaf9b5 *)
+Lemma K5_repaired : gate POther 2147483648 = IErr /\ gate PNone 2147483648 = IErr /\ gate PMinus 2147483648 = IMerged /\
+  gate_pinned POther 2147483648 = ITok 2147483648 /\ lit_value (gate_pinned POther 2147483648) = Some 0.
+Proof. repeat split; vm_compute; reflexivity. Qed.
